@@ -184,6 +184,12 @@ def handle (toks : List String) : Option String :=
     let d ← parseInt? d; let tg ← parseInt? target
     if tg < 1 ∨ tg > 7 then some "!valueError" else
     some (showInts [dayOfWeek d, nextDiff d tg, prevDiff d tg, nextOrSameDiff d tg, prevOrSameDiff d tg])
+  | ["wd.nav", d, target, minD, maxD] => do
+    -- with the calendar's day range: a result outside it is an overflow (`plus_days` raises)
+    let d ← parseInt? d; let tg ← parseInt? target; let lo ← parseInt? minD; let hi ← parseInt? maxD
+    if tg < 1 ∨ tg > 7 then some "!valueError" else
+    let sh := fun (k : Int) => if d + k < lo ∨ d + k > hi then "!range" else toString k
+    some (" ".intercalate [toString (dayOfWeek d), sh (nextDiff d tg), sh (prevDiff d tg), sh (nextOrSameDiff d tg), sh (prevOrSameDiff d tg)])
   | ["wd.nth", f, dim, occ, dow] => do
     let l ← parseInts? [f, dim, occ, dow]
     match l with
